@@ -153,12 +153,24 @@ def resErrStr : ResErr → String
   | .badConstraint => "badConstraint"
   | .badVersion => "badVersion"
   | .incompatible => "incompatible"
+  | .conflict => "conflict"
+
+/-- an interference point of the scenario: absent / null = nobody wrote, an array = the packages
+the other writer stored -/
+def optPkgs (j : Json) (k : String) : Option (List Pkg) :=
+  match j.getObjVal? k with
+  | .ok (.arr a) => some (a.toList.map pkgOf)
+  | _ => none
+
+def envOf (scn : Json) : Interf :=
+  let e := obj scn "env"
+  { rmGet := optPkgs e "rmGet", rmUpd := optPkgs e "rmUpd", refresh := optPkgs e "refresh", upd := optPkgs e "upd" }
 
 def resHandler (scn : Json) : Json × Bool × String :=
   let o := mkOracle (obj scn "oracle")
   let lock := (arr scn "lock").map pkgOf
   let self := pkgOf (obj scn "self")
-  let r := resolve o (bool scn "upg") lock self
+  let r := resolveI false o (bool scn "upg") lock self (envOf scn)
   let out := Json.mkObj [("found", .num (Lean.JsonNumber.fromInt r.found)), ("installed", .num (Lean.JsonNumber.fromInt r.installed)),
     ("invalid", .num (Lean.JsonNumber.fromInt r.invalid)), ("err", .str (resErrStr r.err)),
     ("lock", Json.arr (r.lock.map pkgJson).toArray)]
